@@ -31,6 +31,7 @@ the two (hence THE value wherever they coincide, e.g. when the running product n
 from __future__ import annotations
 
 import contextlib
+import functools
 import itertools
 import math
 from fractions import Fraction
@@ -462,13 +463,21 @@ def run_mapk(shape, ch):
         return _run_mapk(halt, alph, tiers, iname, o, ch)
 
 
+def _stage_objects(casc):
+    """the preset's stage objects, found by type (the attribute that holds them is private and may be renamed)"""
+    for val in vars(casc).values():
+        if isinstance(val, (list, tuple)) and val and all(isinstance(x, CascadeStage) for x in val):
+            return list(val)
+    raise common.HarnessError("cannot locate the stage objects of the MAPK preset")
+
+
 def _run_mapk(halt, alph, tiers, iname, o, ch):
     env = _Env(ch, alph)
     inp = MAPK_INPUTS[iname]
     casc = MAPKCascade(tier1_amplification=float(tiers[0]), tier2_amplification=float(tiers[1]), tier3_amplification=float(tiers[2]),
                        **_cascade_kwargs(o, halt))
     meta = []
-    for i, st in enumerate(casc._stages):
+    for i, st in enumerate(_stage_objects(casc)):
         meta.append((st.name, st.checkpoint is not None, st.on_error is not None, bool(st.required), float(tiers[i])))
         st.processor = _wrap_proc(env, i, st.processor)
         if st.checkpoint is not None:
@@ -607,12 +616,14 @@ def judge(halt, meta, log, inp, res, maxamp=MAX_AMP):
     # (f) amplification = clamped product of the reported factors of COMPLETED stages, under either reading of "clamped"
     facs = [r.amplification_factor for r in res.stage_results if r.status == StageStatus.COMPLETED]
     total = res.total_amplification
-    readings = _amp_readings(facs, maxamp)
-    if readings is None:
+    try:
+        verdict = _amp_verdict(tuple(facs), maxamp, total)
+    except TypeError:  # unhashable factor / total
+        verdict = _amp_verdict.__wrapped__(tuple(facs), maxamp, total)
+    if verdict is None:
         add("amplification-factor-not-a-finite-number", f"reported factors of completed stages: {facs}")
     else:
-        running, final = readings
-        hit_r, hit_f = _amp_close(total, running), _amp_close(total, final)
+        running, final, hit_r, hit_f = verdict
         if not (hit_r or hit_f):
             over = isinstance(total, (int, float)) and not isinstance(total, bool) and total > maxamp
             add("amplification-mismatch" + (":unclamped" if over else ""),
@@ -658,6 +669,15 @@ def _amp_readings(facs, maxamp):
 
 
 AMP_TOL = Fraction(1, 10 ** 9)  # relative; the implementation multiplies floats (0.1 is not a binary fraction)
+
+
+@functools.lru_cache(maxsize=None)
+def _amp_verdict(facs, maxamp, total):
+    """memoised: few distinct (factors of completed stages, maximum, reported total) triples occur in millions of runs"""
+    readings = _amp_readings(facs, maxamp)
+    if readings is None:
+        return None
+    return readings + (_amp_close(total, readings[0]), _amp_close(total, readings[1]))
 
 
 def _amp_close(total, want):
@@ -776,6 +796,8 @@ def scenarios(tier):
                 stages = tuple(c + (f,) for c, f in zip(ctrl, facs))
                 for halt in (1, 0):
                     for opts in ATT_OPTS:
+                        if L >= 3 and opts == (("maxamp", 1e9),):
+                            continue  # never clamps for these factors, like "inf" (kept)
                         out.append(("syn", (halt, "core", stages, opts), dev, "attenuation"))
     for L, dev in sorted(bd["attenuation-pattern"].items()):
         for ctrl in itertools.product(ATT_CTRL, repeat=L):
